@@ -53,8 +53,15 @@ def model_lines(case, rec):
     elif 'single' in al:
         t += ['U', str(f2b(al['single']))]
     else:
-        return None          # signal-driven alpha: relational checks only, no whole-run model
-    t += ['-']
+        # signal-driven alpha: no whole-run model; a no-trade run of the model with the same signals (signal state does not
+        # depend on the alpha model) is used for the signal-cadence correspondence
+        t += ['F', '0']
+    if case.get('signals'):
+        t += ['G', str(len(case['signals']))]
+        for k, lbs in case['signals']:
+            t += [k, str(len(lbs))] + [str(l) for l in lbs]
+    else:
+        t += ['-']
     lines.append(' '.join(t))
     return lines
 
@@ -481,6 +488,30 @@ def check_c07(case, rec, rec2, cut_day):
 # ---------------------------------------------------------------------------------------------
 # C16 / C19 / C09 at session level
 
+def cmp_signals(case, rec, m, tally):
+    """final signal state of the session vs the session model (no-trade run): warm-up count, tracked assets, buffers"""
+    mism = []
+    if m is None or m.get('out') != 'ok' or rec['err'] is not None or m.get('err') is not None or not m.get('signals'):
+        return mism, 'skipped'
+    ms = m['signals']
+    tally.discrete += 1
+    if rec.get('warmup') != ms['warmup']:
+        mism.append(dict(what='signals warm-up counter', impl=rec.get('warmup'), model=ms['warmup']))
+    names = ['s%d' % i for i in range(len(case['signals']))]
+    for n, sm in zip(names, ms['signals']):
+        tally.discrete += 2
+        if rec['signal_assets'].get(n) != sorted(sm['assets']):
+            mism.append(dict(what='assets tracked by signal %s' % n, impl=rec['signal_assets'].get(n), model=sorted(sm['assets'])))
+        bi = [(k, [f2b(x) for x in v]) for k, v in rec['signal_buffers'].get(n, [])]
+        bm = sorted(('%s_%s' % (a, l), list(items)) for a, l, items in sm['buffers'])
+        if bi != bm:
+            bad = next((i for i, (x, y) in enumerate(zip(bi, bm)) if x != y), min(len(bi), len(bm)))
+            mism.append(dict(what='price buffers of signal %s (first difference at #%d of %d/%d)' % (n, bad, len(bi), len(bm)),
+                             impl=rec['signal_buffers'].get(n, [])[bad:bad + 1],
+                             model=[(k, [b2f(x) for x in v]) for k, v in bm[bad:bad + 1]]))
+    return mism, 'compared'
+
+
 def check_c16(case, rec):
     oracle = []
     if rec['construct'] != 'ok' or not case.get('signals'):
@@ -744,7 +775,8 @@ def run(prop, tier, seed, n_cases, corpus=()):
         pairs = list(zip(cuts, reals2))
     for i, (c, r) in enumerate(zip(cases, reals)):
         classify(c, r, hist)
-        m = outs[spans[i][0] + spans[i][1] - 1] if spans[i] is not None else None
+        m_raw = outs[spans[i][0] + spans[i][1] - 1] if spans[i] is not None else None
+        m = m_raw if has_model(c) else None       # signal-driven alpha: the model run is a no-trade run, used for signals only
         g = global_agreement(c, r, m, Tally()) if m is not None else None
         if g is not None:
             stats['global_model_runs'] += 1
@@ -766,6 +798,8 @@ def run(prop, tier, seed, n_cases, corpus=()):
             stats['repeated_runs'] += nruns
         elif prop == 'C16':
             oo, status = check_c16(c, r)
+            mm, st2 = cmp_signals(c, r, m_raw, tally) if c.get('signals') else ([], 'skipped')
+            stats['signals_' + st2] += 1
         elif prop == 'C19':
             oo, status = check_c19(c, r)
         elif prop == 'C09':
